@@ -1112,3 +1112,13 @@ package geom
 //@   requires wf3(g)
 //@   ensures g.flatCoords == old(g.flatCoords) && g.endss == old(g.endss) && g.layout == old(g.layout) && g.stride == old(g.stride) && wf3(g)
 //@   modifies g.flatCoords[0:len(g.flatCoords)]
+
+// C02: the i-th member of a collection is the i-th value pushed (Push appends; see GeometryCollection.Push)
+//@ func GeometryCollection.Geom
+//@   requires 0 <= i && i < len(g.geoms)
+//@   ensures res == g.geoms[i]
+//@   modifies nothing
+
+//@ func GeometryCollection.NumGeoms
+//@   ensures res == len(g.geoms)
+//@   modifies nothing
